@@ -216,6 +216,9 @@ Inductive pre (t : tid) (g : gstate) (l : lstate) (s : sstate) : gstate -> sstat
 | pre_respawn : forall u lu su p, nth_error (thr g) u = Some (lu, su) ->     (* Thread object called again *)
     started su = true -> done lu = true -> joined su = true -> nth_error (progs g) u = Some p ->
     pre t g l s (set_thr g u (restart lu p, relaunch su)) s true
+| pre_copy : forall v lv sv p tau, nth_error (thr g) v = Some (lv, sv) -> started sv = false ->    (* copy of a Thread object *)
+    nth_error (progs g) v = Some p ->
+    pre t g l s (set_thr g v (set_tls (linit v p) tau, launch_copy sv tau)) s true
 | pre_join : forall u lu su k, code l = KOp (OJoin u) :: k ->
     nth_error (thr g) u = Some (lu, su) -> started su = true -> done lu = true -> joined su = false ->
     pre t g l s (set_thr g u (lu, set_joined su)) s true
@@ -276,6 +279,13 @@ Proof.
       destruct (joined su) eqn:Hj; auto. apply ADV; [eapply pre_join; eauto | nohd].
     + (* peek *) destruct (nth_error (thr g) t0) as [[lu su]|] eqn:Hu; auto.
       apply ADV; [eapply pre_peek; eauto | nohd].
+    + (* copy of a Thread object *)
+      destruct (nth_error (thr g) v) as [[lv sv]|] eqn:Hv; auto.
+      destruct (nth_error (thr g) u) as [[lu su]|] eqn:Hu; auto.
+      destruct (nth_error (progs g) v) as [p|] eqn:Hp; auto.
+      destruct (started sv) eqn:Hs; auto.
+      destruct ((u =? t) || (started su && done lu && joined su)); auto.
+      apply ADV; [eapply pre_copy; eauto | nohd].
   - apply ADV; [constructor | nohd].
   - unfold release. destruct (mtx g m) as [ow|] eqn:Hm; auto.
     destruct (ow =? t) eqn:E; auto. apply Nat.eqb_eq in E; subst ow. apply ADV; [constructor; auto | nohd].
@@ -301,28 +311,35 @@ Qed.
 
 (* ------------------------------------------------------------------ what a step does to the other threads *)
 Lemma pre_self : forall t g l s g1 s1 ok, pre t g l s g1 s1 ok ->
-  hist s1 = hist s /\ past s1 = past s /\ joined s1 = joined s /\ progs g1 = progs g.
+  hist s1 = hist s /\ past s1 = past s /\ joined s1 = joined s /\ progs g1 = progs g /\ tls0 s1 = tls0 s.
 Proof. intros. inversion H; subst; simpl; auto. Qed.
 
-(* an entry of g1 is the entry of g up to started/joined flags — or the relaunch of a finished, joined thread *)
+(* an entry of g1 is the entry of g up to started/joined flags — or the relaunch of a finished, joined thread —
+   or the launch of a Thread object made by copy() *)
+Definition same_entry (g : gstate) (t' : tid) (l' : lstate) (s' : sstate) : Prop :=
+  exists s0, nth_error (thr g) t' = Some (l', s0) /\ holding s' = holding s0 /\ tmp s' = tmp s0 /\
+             hist s' = hist s0 /\ past s' = past s0 /\ tls0 s' = tls0 s0 /\
+             (joined s' = true -> joined s0 = true \/ done l' = true).
+
 Lemma pre_lookup : forall t g l s g1 s1 ok, pre t g l s g1 s1 ok ->
   forall t' l' s', nth_error (thr g1) t' = Some (l', s') ->
-    (exists s0, nth_error (thr g) t' = Some (l', s0) /\ holding s' = holding s0 /\ tmp s' = tmp s0 /\
-                hist s' = hist s0 /\ past s' = past s0 /\ (joined s' = true -> joined s0 = true \/ done l' = true))
+    same_entry g t' l' s'
     \/ (exists lu su p, nth_error (thr g) t' = Some (lu, su) /\ done lu = true /\ joined su = true /\
-                         nth_error (progs g) t' = Some p /\ l' = restart lu p /\ s' = relaunch su).
+                         nth_error (progs g) t' = Some p /\ l' = restart lu p /\ s' = relaunch su)
+    \/ (exists lv sv p tau, nth_error (thr g) t' = Some (lv, sv) /\ started sv = false /\
+                         nth_error (progs g) t' = Some p /\ l' = set_tls (linit t' p) tau /\ s' = launch_copy sv tau).
 Proof.
   intros t g l s g1 s1 ok P t' l' s' H.
   assert (SAME : forall s0, nth_error (thr g) t' = Some (l', s0) -> holding s' = holding s0 -> tmp s' = tmp s0 ->
-            hist s' = hist s0 -> past s' = past s0 -> (joined s' = true -> joined s0 = true \/ done l' = true) ->
-            (exists s0, nth_error (thr g) t' = Some (l', s0) /\ holding s' = holding s0 /\ tmp s' = tmp s0 /\
-                hist s' = hist s0 /\ past s' = past s0 /\ (joined s' = true -> joined s0 = true \/ done l' = true)))
-    by (intros; eauto 10).
+            hist s' = hist s0 -> past s' = past s0 -> tls0 s' = tls0 s0 ->
+            (joined s' = true -> joined s0 = true \/ done l' = true) -> same_entry g t' l' s')
+    by (intros; unfold same_entry; eauto 12).
   inversion P; subst; simpl in H; try (left; apply (SAME s'); auto; fail);
     apply nth_error_upd_some in H; destruct H as [[<- E]|[? H]]; try (left; apply (SAME s'); auto; fail);
     inversion E; subst.
   - left. apply (SAME su); auto.
-  - right. exists lu, su, p. auto 10.
+  - right. left. exists lu, su, p. auto 10.
+  - right. right. exists lv, sv, p, tau. auto 10.
   - left. apply (SAME su); auto.
 Qed.
 
@@ -330,7 +347,7 @@ Qed.
 Definition iso_inv (ps : list (list op)) (g : gstate) : Prop :=
   progs g = ps /\
   forall t l s, nth_error (thr g) t = Some (l, s) ->
-    exists p, nth_error ps t = Some p /\ l = alone c (hist s) (base c t p (past s)).
+    exists p, nth_error ps t = Some p /\ l = alone c (hist s) (base c t p (tls0 s) (past s)).
 
 Lemma init_from_nth : forall ps k t,
   nth_error (init_from k ps) t = option_map (fun p => (linit (k + t) p, sinit (k + t =? 0))) (nth_error ps t).
@@ -351,16 +368,18 @@ Proof.
   intros ps t g [IP I]. destruct (gstep_shape t g) as [|l s Ht|l s g1 s1 ok Ht Hab Hst Hdo Hfa Hub P PI]; [split; auto| |].
   - split; auto. intros t' l' s' H. apply set_thr_lookup in H. destruct H as [[-> E]|[Hne H]]; auto.
     inversion E; subst. apply (I _ _ _ Ht).
-  - destruct (pre_self _ _ _ _ _ _ _ P) as [Eh [Ep [_ Eg]]].
+  - destruct (pre_self _ _ _ _ _ _ _ P) as [Eh [Ep [_ [Eg Et]]]].
     split; [unfold advance_ok; simpl; congruence|].
     intros t' l' s' H. apply adv_lookup in H. destruct H as [[-> [-> ->]]|[Hne H]].
     + destruct (I _ _ _ Ht) as [p [Hp Hl]]. exists p. split; auto. simpl. rewrite Eh, Ep.
-      change (alone c (ok :: hist s) (base c t p (past s))) with (lstep c ok (alone c (hist s) (base c t p (past s)))).
+      change (alone c (ok :: hist s) (base c t p (tls0 s) (past s))) with (lstep c ok (alone c (hist s) (base c t p (tls0 s) (past s)))).
       congruence.
-    + destruct (pre_lookup _ _ _ _ _ _ _ P _ _ _ H) as [[s0 [H0 [_ [_ [Eh0 [Ep0 _]]]]]]|[lu [su [p [H0 [_ [_ [Hp [-> ->]]]]]]]]].
-      * rewrite Eh0, Ep0. apply (I _ _ _ H0).
+    + destruct (pre_lookup _ _ _ _ _ _ _ P _ _ _ H) as [[s0 [H0 [_ [_ [Eh0 [Ep0 [Et0 _]]]]]]]|[[lu [su [p [H0 [_ [_ [Hp [-> ->]]]]]]]]|[lv [sv [p [tau [H0 [_ [Hp [-> ->]]]]]]]]]].
+      * rewrite Eh0, Ep0, Et0. apply (I _ _ _ H0).
       * destruct (I _ _ _ H0) as [p' [Hp' Hl]]. assert (p' = p) by congruence. subst p'.
         exists p. split; auto. simpl. congruence.
+      * destruct (I _ _ _ H0) as [p' [Hp' _]]. assert (p' = p) by congruence. subst p'.
+        exists p. split; auto.
 Qed.
 
 Lemma iso_run : forall ps sched g, iso_inv ps g -> iso_inv ps (R sched g).
@@ -372,58 +391,65 @@ Proof. induction sched; simpl; intros; auto. apply IHsched. apply iso_step; auto
    current run, past: the completed ones): it is what the thread reaches on its own with the same answers. *)
 Theorem isolation_core : forall ps sched t l s,
   nth_error (thr (R sched (ginit ps))) t = Some (l, s) ->
-  exists p, nth_error ps t = Some p /\ l = alone c (hist s) (base c t p (past s)).
+  exists p, nth_error ps t = Some p /\ l = alone c (hist s) (base c t p (tls0 s) (past s)).
 Proof. intros. destruct (iso_run ps sched _ (iso_init ps)) as [_ I]. eauto. Qed.
 
 (* first run, no try-once section refused (e.g. the program has none): the stand-alone run proper *)
 Corollary isolation_plain : forall ps sched t l s,
-  nth_error (thr (R sched (ginit ps))) t = Some (l, s) -> past s = [] -> forallb (fun x => x) (hist s) = true ->
+  nth_error (thr (R sched (ginit ps))) t = Some (l, s) -> past s = [] -> tls0 s = [] ->
+  forallb (fun x => x) (hist s) = true ->
   exists p, nth_error ps t = Some p /\ l = alone_n c (steps s) (linit t p).
 Proof.
-  intros ps sched t l s H Hp H0. destruct (isolation_core _ _ _ _ _ H) as [p [Hp' Hl]]. exists p. split; auto.
-  rewrite Hp in Hl. simpl in Hl.
-  unfold alone_n, steps. replace (repeat true (length (hist s))) with (hist s); auto.
-  clear - H0. induction (hist s) as [|x h IH]; simpl in *; auto.
-  apply andb_true_iff in H0. destruct H0 as [-> H0]. f_equal. auto.
+  intros ps sched t l s H Hp Ht0 H0. destruct (isolation_core _ _ _ _ _ H) as [p [Hp' Hl]]. exists p. split; auto.
+  rewrite Hp, Ht0 in Hl. simpl in Hl. change (set_tls (linit t p) []) with (linit t p) in Hl.
+  assert (E : repeat true (length (hist s)) = hist s).
+  { clear - H0. induction (hist s) as [|x h IH]; simpl in *; auto.
+    apply andb_true_iff in H0. destruct H0 as [-> H0]. f_equal. auto. }
+  unfold alone_n, steps. rewrite E. exact Hl.
 Qed.
 
 (* a finished thread has computed exactly its complete stand-alone result (whatever comes after) *)
 Theorem isolation_finished : forall ps sched t l s,
   nth_error (thr (R sched (ginit ps))) t = Some (l, s) -> done l = true ->
-  exists p, nth_error ps t = Some p /\ forall h', alone c (h' ++ hist s) (base c t p (past s)) = l.
+  exists p, nth_error ps t = Some p /\ forall h', alone c (h' ++ hist s) (base c t p (tls0 s) (past s)) = l.
 Proof.
   intros. destruct (isolation_core _ _ _ _ _ H) as [p [Hp Hl]]. exists p. split; auto.
   intros. subst l. apply alone_final. auto.
 Qed.
 
-(* frame: an instruction of t never changes the core of another thread — except that calling a Thread
-   object whose previous run has finished and been joined starts its next run *)
+(* frame: an instruction of t never changes the core of another thread — except that calling a Thread object
+   whose previous run has finished and been joined starts its next run, and that calling a fresh copy of a Thread
+   object starts it with the snapshot of the TLS table it was copied from *)
 Theorem step_frame : forall t t' g, t <> t' ->
   core (G t g) t' = core g t' \/
-  exists lu su p, nth_error (thr g) t' = Some (lu, su) /\ done lu = true /\ joined su = true /\
-                  nth_error (progs g) t' = Some p /\ core (G t g) t' = Some (restart lu p).
+  (exists lu su p, nth_error (thr g) t' = Some (lu, su) /\ done lu = true /\ joined su = true /\
+                   nth_error (progs g) t' = Some p /\ core (G t g) t' = Some (restart lu p)) \/
+  (exists lv sv p tau, nth_error (thr g) t' = Some (lv, sv) /\ started sv = false /\
+                   nth_error (progs g) t' = Some p /\ core (G t g) t' = Some (set_tls (linit t' p) tau)).
 Proof.
   intros t t' g Hne. unfold core.
   destruct (gstep_shape t g) as [|l s Ht|l s g1 s1 ok Ht Hab Hst Hdo Hfa Hub P PI]; auto.
   - left. unfold set_thr; simpl. rewrite nth_error_upd_ne; auto.
   - unfold advance_ok; simpl. rewrite nth_error_upd_ne; auto.
     destruct (nth_error (thr g1) t') as [[l' s']|] eqn:H.
-    + destruct (pre_lookup _ _ _ _ _ _ _ P _ _ _ H) as [[s0 [H0 _]]|[lu [su [p [H0 [Hd [Hj [Hp [-> ->]]]]]]]]].
+    + destruct (pre_lookup _ _ _ _ _ _ _ P _ _ _ H) as [[s0 [H0 _]]|[[lu [su [p [H0 [Hd [Hj [Hp [-> ->]]]]]]]]|[lv [sv [p [tau [H0 [Hs [Hp [-> ->]]]]]]]]]].
       * left. rewrite H0. reflexivity.
-      * right. exists lu, su, p. auto 10.
+      * right. left. exists lu, su, p. auto 10.
+      * right. right. exists lv, sv, p, tau. auto 10.
     + left. inversion P; subst; simpl in H; try (rewrite H; reflexivity);
         unfold set_thr in H; simpl in H;
-        (destruct (Nat.eq_dec u t') as [->|Hn]; [rewrite nth_error_upd_eq in H; [discriminate | apply nth_error_Some; congruence]
-                                                 | rewrite nth_error_upd_ne in H; auto; rewrite H; reflexivity]).
+        match type of H with nth_error (upd _ ?x _) _ = None =>
+          (destruct (Nat.eq_dec x t') as [->|Hn]; [rewrite nth_error_upd_eq in H; [discriminate | apply nth_error_Some; congruence]
+                                                 | rewrite nth_error_upd_ne in H; auto; rewrite H; reflexivity]) end.
 Qed.
 
 (* no thread's collector ever finalises (or even registers) an object allocated by another thread *)
-Lemma base_me : forall t p pa, me (base c t p pa) = t.
+Lemma base_me : forall t p tau pa, me (base c t p tau pa) = t.
 Proof. induction pa; simpl; auto. rewrite alone_me. auto. Qed.
 
-Lemma base_own : forall t p pa, own (base c t p pa).
+Lemma base_own : forall t p tau pa, own (base c t p tau pa).
 Proof.
-  induction pa; simpl; [apply linit_own|].
+  induction pa; simpl; [intros o [[]|[]]|].
   pose proof (alone_own c a _ IHpa) as O. intros o [[]|Hin]. simpl in Hin. apply O. auto.
 Qed.
 
@@ -471,6 +497,9 @@ Proof.
       * inversion E; subst. simpl in Hin. eapply I; eauto.
       * eapply I; eauto.
     + (* the Thread object is called again *) apply set_thr_lookup in H. destruct H as [[-> E]|[? H]].
+      * inversion E; subst. simpl in Hin. eapply I; eauto.
+      * eapply I; eauto.
+    + (* a copy of a Thread object is called *) apply set_thr_lookup in H. destruct H as [[-> E]|[? H]].
       * inversion E; subst. simpl in Hin. eapply I; eauto.
       * eapply I; eauto.
     + apply set_thr_lookup in H. destruct H as [[-> E]|[? H]].
@@ -567,7 +596,7 @@ Proof.
       * rewrite E2 in Hc. inversion Hc; subst m0 k0.
         destruct (PI _ _ E1) as [Hh [-> ->]]. simpl. split; [apply nmem_in; auto | reflexivity].
     + (* another thread *)
-      destruct (pre_lookup _ _ _ _ _ _ _ P _ _ _ H) as [[s0 [H0 [Eh [Et _]]]]|[lu [su [p [H0 [_ [_ [_ [-> ->]]]]]]]]].
+      destruct (pre_lookup _ _ _ _ _ _ _ P _ _ _ H) as [[s0 [H0 [Eh [Et _]]]]|[[lu [su [p [H0 [_ [_ [_ [-> ->]]]]]]]]|[lv [sv [p [tau [H0 [_ [_ [-> ->]]]]]]]]]].
       * destruct (I _ _ _ H0) as [W N]. split; auto.
         intros m k Hc. destruct (N _ _ Hc) as [Hin Htmp]. rewrite Eh, Et. split; auto.
         unfold advance_ok; simpl. destruct (pre_cells _ _ _ _ _ _ _ P) as [->|[m' [k' [Hc' ->]]]]; auto.
@@ -576,6 +605,10 @@ Proof.
         destruct (I _ _ _ Ht) as [_ N']. destruct (N' _ _ Hc') as [Hin' _].
         pose proof (MX _ _ _ _ Ht Hin'). pose proof (MX _ _ _ _ H0 Hin). congruence.
       * (* relaunched: the continuation is the plain program *)
+        simpl. split.
+        -- intros m Hin. destruct p; simpl in Hin; auto. apply in_map_iff in Hin. destruct Hin as [? [? ?]]. discriminate.
+        -- intros m k Hc. destruct p; simpl in Hc; discriminate.
+      * (* launched copy: the continuation is the plain program *)
         simpl. split.
         -- intros m Hin. destruct p; simpl in Hin; auto. apply in_map_iff in Hin. destruct Hin as [? [? ?]]. discriminate.
         -- intros m k Hc. destruct p; simpl in Hc; discriminate.
@@ -626,8 +659,9 @@ Proof.
     + destruct (pre_self _ _ _ _ _ _ _ P) as [_ [_ [Ej _]]].
       change (joined (bump ok s1)) with (joined s1) in Hj. rewrite Ej in Hj.
       rewrite (I _ _ _ Ht Hj) in Hdo. discriminate.
-    + destruct (pre_lookup _ _ _ _ _ _ _ P _ _ _ H) as [[s0 [H0 [_ [_ [_ [_ J]]]]]]|[lu' [su' [p [_ [_ [_ [_ [_ ->]]]]]]]]].
+    + destruct (pre_lookup _ _ _ _ _ _ _ P _ _ _ H) as [[s0 [H0 [_ [_ [_ [_ [_ J]]]]]]]|[[lu' [su' [p [_ [_ [_ [_ [_ ->]]]]]]]]|[lv [sv [p [tau [_ [_ [_ [_ ->]]]]]]]]]].
       * destruct (J Hj); auto. eapply I; eauto.
+      * discriminate Hj.
       * discriminate Hj.
 Qed.
 
@@ -656,7 +690,7 @@ Theorem join_publishes_gen : forall ps sched t u lu su p l s k,
   aborted g = false -> started s = true -> done l = false -> fatal l = false -> ub s = false ->
   code l = KOp (OPeek u) :: k ->
   done lu = true /\
-  (forall h', alone c (h' ++ hist su) (base c u p (past su)) = lu) /\
+  (forall h', alone c (h' ++ hist su) (base c u p (tls0 su) (past su)) = lu) /\
   option_map (fun ls => seen (snd ls)) (nth_error (thr (G t g)) t) = Some ((u, out lu) :: seen s).
 Proof.
   intros ps sched t u lu su p l s k g Hu Hj Hp Ht Hab Hst Hdo Hfa Hub Hc.
@@ -679,6 +713,25 @@ Theorem call_resets_join : forall t g u lu su p l s k,
 Proof.
   intros t g u lu su p l s k Ht Hab Hst Hdo Hfa Hub Hc Hu Hsu Hdu Hju Hp Hne.
   unfold gstep. rewrite Hab, Ht, Hst, Hdo, Hfa, Hub. simpl. rewrite Hc, Hu, Hsu, Hdu, Hju, Hp. simpl.
+  unfold advance, advance_ok; simpl. rewrite nth_error_upd_ne; auto.
+  apply nth_error_upd_eq. apply nth_error_Some. congruence.
+Qed.
+
+(* a Thread object made by copy(current(Thread)) and called: it starts with a SNAPSHOT of the caller's TLS and
+   with its own fresh exception record (depth 0, inactive), empty collector registry and empty trace — whatever
+   try depth the caller is at; afterwards `isolation` applies to it like to any other thread *)
+Theorem copy_of_self_gen : forall t g v lv sv p l s k,
+  nth_error (thr g) t = Some (l, s) -> aborted g = false -> started s = true -> done l = false ->
+  fatal l = false -> ub s = false -> code l = KOp (OSpawnCopy v t) :: k ->
+  nth_error (thr g) v = Some (lv, sv) -> started sv = false -> nth_error (progs g) v = Some p -> t <> v ->
+  exists l' s', nth_error (thr (G t g)) v = Some (l', s') /\
+    tls l' = tls l /\ exc l' = mkE 0 false None /\ reg l' = [] /\ fin l' = [] /\ out l' = [] /\ code l' = map KOp p /\
+    started s' = true /\ joined s' = false /\ tls0 s' = tls l.
+Proof.
+  intros t g v lv sv p l s k Ht Hab Hst Hdo Hfa Hub Hc Hv Hsv Hp Hne.
+  exists (set_tls (linit v p) (tls l)), (launch_copy sv (tls l)). split; [|repeat split].
+  unfold gstep. rewrite Hab, Ht, Hst, Hdo, Hfa, Hub. simpl. rewrite Hc, Hv, Ht, Hp, Hsv. simpl.
+  rewrite Nat.eqb_refl. simpl.
   unfold advance, advance_ok; simpl. rewrite nth_error_upd_ne; auto.
   apply nth_error_upd_eq. apply nth_error_Some. congruence.
 Qed.
